@@ -21,10 +21,10 @@ RULE = ("a case = one `msmart-ng control <host> [--id --token --key] setting=val
         "(sys.argv patched, SystemExit caught, event-loop policy handing out the virtual loop bound to a simulated V2 or V3 device at "
         "host:6444 whose reported state is random). Valid lines: every writable setting; enumerations by every member name in lower / "
         "UPPER / Title case and by every member value, raw integers for fan_speed; numbers as int and float at boundaries; booleans "
-        "True/False/1/0 in three letter cases; display_on both ways against both device display states; pairs of settings. Oracle: exit "
+        "True/False/1/0 in three letter cases; display_on both ways against both device display states; pairs of settings; a set of lines run after importing msmart afresh (the CLI's own process has no earlier use of anything); --capabilities against units with restricted capability profiles that report values outside the profile. Oracle: exit "
         "status 0 and final simulated-device state (control body / property store / display) == reported state overlaid with an "
         "independent README-derived interpretation of the pairs. Invalid lines (unknown, read-only, private, method names, ill-typed "
-        "values, malformed pairs, valid-then-invalid): non-zero exit (an uncaught exception counts as non-zero, recorded as 'crash') and "
+        "values incl. nan/inf/None/containers/complex where a number is expected, malformed pairs, valid-then-invalid): non-zero exit (an uncaught exception counts as non-zero, recorded as 'crash') and "
         "zero connections / bytes on the simulated network. distinct = argv; all non-trivial")
 ASSUMPTIONS = ["only documented spellings are judged: member names and values of the enumerations, int/float literals, True/False/1/0 in any letter case",
                "an uncaught exception in cli.main() is a non-zero exit", "README.md lines 120-133 are the specification of the value syntax"]
@@ -61,6 +61,11 @@ INVALID = [
     ["target_temperature=warm"], ["target_temperature=twenty"], ["target_humidity=damp"],
     ["operational_mode=frozen"], ["operational_mode=99"], ["operational_mode=0"], ["swing_mode=sideways"], ["swing_mode=7"], ["fan_speed=fast"],
     ["aux_mode=9"], ["rate_select=33"], ["horizontal_swing_angle=37"], ["vertical_swing_angle=up"],
+    ["target_temperature=nan"], ["target_temperature=inf"], ["target_temperature=-inf"], ["target_temperature=Infinity"], ["target_temperature=NaN"],
+    ["target_humidity=nan"], ["target_humidity=inf"], ["target_temperature=None"], ["target_temperature=[20]"], ["target_temperature=(20,)"],
+    ["target_temperature={}"], ["target_temperature=20+1j"], ["target_temperature=..."], ["target_temperature=20.5.1"], ["target_temperature=--5"],
+    ["target_humidity=40,50"], ["power_state=[]x"], ["display_on=nan", "target_temperature=21"],
+    ["display_on=0", "target_temperature=inf"], ["display_on=1", "target_temperature=nan"], ["eco_mode=perhaps"], ["turbo_mode=on!"],
     ["power_state"], ["=1"], ["power_state=True=False"],
     ["power_state=True", "bogus=1"], ["target_temperature=20", "operational_mode=frozen"], ["eco=1", "online=True"], ["display_on=True", "nope=1"],
     ["fan_speed=low", "swing_mode=diagonal"], ["power_state=1", "target_temperature=hot"], ["display_on=maybe"],
@@ -93,6 +98,19 @@ def generate(ctx, rng):
                 yield case([[name, str(int(m)), int(m)]])
     for v in [1, 19, 21, 33, 50, 55, 79, 99, 101]:
         yield case([["fan_speed", str(v), v]])
+    # the command's first use of a setting in a brand-new process (the CLI is a process of its own): msmart is imported afresh
+    for name in BOOLS + ["target_temperature", "operational_mode"]:
+        for sp, val in (("1", True), ("False", False)) if name in BOOLS else ((("21.5", 21.5),) if name == "target_temperature" else (("heat", 4),)):
+            yield case([[name, sp, val]], fresh=True)
+    yield case([["operational_mode", "cool", 2], ["target_temperature", "20.5", 20.5], ["fan_speed", "100", 100], ["display_on", "True", True], ["beep", "0", False]], fresh=True)
+    # --capabilities against units with a restricted capability profile (no custom fan speeds, few modes / presets) that report
+    # values outside the profile: settings not on the command line must stay as reported
+    for j in range(40 if quick else 1500):
+        pairs = rng.sample([["power_state", "1", True], ["power_state", "0", False], ["eco", "1", True], ["sleep", "True", True], ["turbo", "0", False],
+                            ["target_temperature", "24.5", 24.5], ["target_humidity", "55", 55.0], ["purifier", "1", True], ["follow_me", "0", False],
+                            ["fahrenheit", "1", True], ["display_on", "1", True], ["display_on", "0", False], ["beep", "1", True]], rng.randint(1, 2))
+        if len({p[0] for p in pairs}) == len(pairs):
+            yield case(pairs, caps=True, caps_profile=["presets-only", "minimal"][j % 2], v3=j % 4 == 0, auto=False)
     for name in BOOLS:
         for sp, val in BOOL_SPELLINGS:
             yield case([[name, sp, val]])
@@ -157,15 +175,44 @@ class _Policy(asyncio.DefaultEventLoopPolicy):
         return loop
 
 
-def _run_cli(argv, net):
+class _FreshProcess:
+    """Emulates the start of a new interpreter as far as msmart is concerned: every msmart module is imported afresh (new
+    class objects, new function objects, new module-level state); the harness' clock and entropy are installed again."""
+
+    def __enter__(self):
+        self.saved = {k: v for k, v in sys.modules.items() if k == "msmart" or k.startswith("msmart.")}
+        for k in self.saved:
+            del sys.modules[k]
+        import msmart.cli as fresh_cli
+        import msmart.lan
+        import msmart.cloud  # noqa: F401
+        vloop.install_clock()
+        msmart.lan.get_random_bytes = H._seeded_random_bytes
+        return fresh_cli
+
+    def __exit__(self, *a):
+        for k in [k for k in sys.modules if k == "msmart" or k.startswith("msmart.")]:
+            del sys.modules[k]
+        sys.modules.update(self.saved)
+        vloop.install_clock()
+        return False
+
+
+def _run_cli(argv, net, fresh=False):
+    if fresh:
+        with _FreshProcess() as fresh_cli:
+            return _run_cli_with(fresh_cli, argv, net)
+    return _run_cli_with(cli, argv, net)
+
+
+def _run_cli_with(cli, argv, net):
     _Policy.net = net
     _Policy.loops = []
     old_policy = asyncio.get_event_loop_policy()
     old_argv = sys.argv
     asyncio.set_event_loop_policy(_Policy())
     sys.argv = ["msmart-ng"] + argv
-    import msmart.discover
-    msmart.discover.Discover._lock = None
+    sys.modules["msmart.discover"].Discover._lock = None
     status, crash = None, None
     import contextlib
     dbg = H.debug_logging() if ("-d" in argv or "--debug" in argv) else contextlib.nullcontext()
@@ -196,7 +243,10 @@ def _mkdev(case):
     net = H.new_net()
     st = {**acstate.default_state(), **{k: v for k, v in case["state"].items() if k in acstate.FIELDS}, "display_on": case["display"]}
     model = ACModel(st)
-    model.caps_pages = [[(0x0214, b"\x01"), (0x0215, b"\x01"), (0x0210, b"\x01"), (0x0212, b"\x01"), (0x021A, b"\x01"), (0x0213, b"\x01"),
+    restricted = {"presets-only": [(0x0210, b"\x05"), (0x0214, b"\x02"), (0x0215, b"\x02"), (0x0212, b"\x00"), (0x021A, b"\x02"), (0x0213, b"\x00"),
+                                   (0x0225, bytes([34, 60, 34, 60, 34, 60, 0]))],
+                  "minimal": [(0x0210, b"\x07"), (0x0214, b"\x00")]}
+    model.caps_pages = [restricted[case["caps_profile"]]] if case.get("caps_profile") else [[(0x0214, b"\x01"), (0x0215, b"\x01"), (0x0210, b"\x01"), (0x0212, b"\x01"), (0x021A, b"\x01"), (0x0213, b"\x01"),
                          (0x021F, b"\x02"), (0x0219, b"\x01"), (0x0225, bytes([26, 87, 26, 87, 26, 87, 1])), (0x0043, b"\x01"), (0x0048, b"\x02"),
                          (0x00E3, b"\x01"), (0x0009, b"\x01"), (0x000A, b"\x01"), (0x0224, b"\x01")]]
     model.props = {0x0043: b"\x01", 0x0048: b"\x64", 0x00E3: b"\x00\x00", 0x0009: b"\x00", 0x000A: b"\x00", 0x0042: b"\x01", 0x0018: b"\x00"}
@@ -241,8 +291,13 @@ def run_case(ctx, case):
         return
     pairs = case["pairs"]
     args = [f"{n}={sp}" for n, sp, _ in pairs]
-    status, crash = _run_cli(argv + args, net)
-    key = ("valid", tuple(args), case["v3"], case.get("auto"), case["display"], case.get("caps"), gen.state_key({**gen.base_state(), **case["state"]}))
+    status, crash = _run_cli(argv + args, net, fresh=bool(case.get("fresh")))
+    if case.get("fresh"):
+        ctx.bump("valid-lines-run-in-a-fresh-import-of-msmart")
+    if case.get("caps_profile"):
+        ctx.bump("valid-lines-with-restricted-capability-profile")
+    key = ("valid", tuple(args), case["v3"], case.get("auto"), case["display"], case.get("caps"), case.get("caps_profile"), bool(case.get("fresh")),
+           gen.state_key({**gen.base_state(), **case["state"]}))
     if status != 0:
         ctx.count(key, kind="valid-rejected")
         ctx.violation("documented-spelling-rejected/" + pairs[0][0], f"documented command line {args} exited with status {status}"
@@ -277,7 +332,14 @@ def run_case(ctx, case):
     got = dict(model.state)
     diffs = {f: (exp[f], got[f]) for f in list(acstate.FIELDS) + ["display_on"] if got[f] != exp[f]}
     bad = False
-    if diffs:
+    toggled = any(n == "display_on" for n, _, _ in pairs) and st0["display_on"] != exp["display_on"]
+    if (set(diffs) == {"fan"} and case.get("caps_profile") and toggled and diffs["fan"][1] == 102
+            and diffs["fan"][0] not in (20, 40, 60, 80, 100, 102)):
+        # known finding (known_findings.json): --capabilities + an effective display toggle on a unit without custom fan speeds
+        bad = True
+        ctx.violation("fan-reset-to-auto/display-toggle-after-capabilities",
+                      f"after `control --capabilities {' '.join(args)}` the fan speed the unit reported ({diffs['fan'][0]}) was written back as AUTO (102)", case)
+    elif diffs:
         bad = True
         f0 = sorted(diffs)[0]
         ctx.violation(f"device-state/{f0}", f"after `control {' '.join(args)}` the device differs from reported-state+settings: {diffs}", case)
